@@ -3,7 +3,9 @@ package props
 
 import (
 	"encoding/json"
+
 	"fmt"
+	"github.com/mlange-42/arche/ecs"
 	"os"
 	"sort"
 
@@ -75,3 +77,29 @@ func Replay(path string) int {
 var replayers = map[string]func(rf *runner.ReplayFile) int{}
 
 var _ = sim.Std
+
+// ShapeSelfTest compares the struct definitions of the library's internal types (by reflection) with the list of fields
+// the canonical state dump declares as covered or deliberately excluded. A new field must not silently drop out of the state key.
+func ShapeSelfTest() string {
+	declared := ecs.VerifShapeFields()
+	actual := ecs.VerifStructFields()
+	for tp, fields := range actual {
+		have := map[string]bool{}
+		for _, d := range declared[tp] {
+			name := d
+			for i := range d {
+				if d[i] == ':' {
+					name = d[:i]
+					break
+				}
+			}
+			have[name] = true
+		}
+		for _, f := range fields {
+			if !have[f] {
+				return fmt.Sprintf("field %s.%s is not declared in VerifShapeFields", tp, f)
+			}
+		}
+	}
+	return ""
+}
